@@ -76,12 +76,13 @@ fn plan_for(cfg: &Cfg) -> Plan {
         }
         "C01" => {
             let (b, r) = scen::c01_sizes(cfg);
+            let r = r + scen::C01_EXHAUSTIVE;
             Plan {
                 n: b + r,
                 scenario: scen::c01,
                 meta: EvidenceMeta {
                     level: "exploration",
-                    rule: format!("run index i < {b}: large generated family (1e5 keys quick / 3e6 thorough) streamed through short writes and compared entry by entry after reopening; i >= {b}: random legal history (front end x call grouping x key classes x value style) x cache geometry knob x benign sink. Non-trivial = a non-default cache geometry was set or a short write/Interrupted fired; distinct by log digest."),
+                    rule: format!("run index i < {b}: large generated family (1e5 keys quick / 3e6 thorough) streamed through short writes and compared entry by entry after reopening; the next 16384 indices: every map over the key universe {{\"\",a,aa,ab,b,ba}} with values in {{0,1,256}} x 4 small cache geometries; then: random legal history (front end x call grouping x key classes x value style) x cache geometry knob x benign sink. Non-trivial = a non-default cache geometry was set or a short write/Interrupted fired; distinct by log digest."),
                     assumptions: common_assume(&["model = ordered map of the accepted (key, value) pairs; key/value space is ordinary seeded generation"]),
                     real: REAL.to_vec(),
                     stubs: STUBS.to_vec(),
